@@ -402,10 +402,13 @@ def cases(thorough: bool) -> List[dict]:
             nl = G.n_leaves(t)
             if nl == 0:
                 continue
-            fills = itertools.product(names, repeat=nl) if nl <= 3 else \
+            names3 = names if (thorough or nl <= 2) else [x for x in names if x != "TlmB"]   # the nested container only on <= 2 leaves in quick
+            fills = itertools.product(names3, repeat=nl) if nl <= 3 else \
                 [tuple(names[(i + j * (1 + s)) % len(names)] for j in range(nl)) for i in range(len(names)) for s in range(3)]
-            for fill in fills:
-                for lp in LABEL_PATTERNS:
+            for fi, fill in enumerate(fills):
+                # every label pattern on <= 2 leaves; on 3+ leaves a rotating third of the patterns in quick (all in thorough)
+                lps = LABEL_PATTERNS if (thorough or nl <= 2) else [LABEL_PATTERNS[(fi + j * 3) % len(LABEL_PATTERNS)] for j in range(3)]
+                for lp in lps:
                     k += 1
                     out.append({"kind": "tree", "tree": t, "fill": list(fill), "labels": lp,
                                 "route": "cdc" if (k % 5 == 0 and G.cdc_expressible(t)) else "objects",
@@ -424,7 +427,7 @@ def run(ctx) -> None:
     thorough = ctx.tier == "thorough"
     setup()
     ctx.rule = ("every canonical skeleton with <= 3 (quick) / <= 4 (thorough) leaves and the object-only shapes x every filling from "
-                "{R, C, Q, L, Tlm with nested [R(RC)], Tlm containing a Tlm} (repeated types included) x 9 label patterns (none, one label, "
+                "{R, C, Q, L, Tlm with nested [R(RC)], Tlm containing a Tlm} (repeated types included) x 9 label patterns (a rotating third of them on 3-leaf circuits in quick; none, one label, "
                 "duplicate labels on the same / on any types, a label that looks like an identifier, labels with space / '-' / '.', all "
                 "distinct), built from objects or CDC text; plus series chains and ladders of 12-22 elements so that running identifiers share "
                 "decimal suffixes; every parameter gets a distinct prime-derived value. Oracles: identifier bijections over a reference traversal "
